@@ -289,6 +289,98 @@ func TestCacheEnum(t *testing.T) {
 	}
 }
 
+// ---- scenario templates ----------------------------------------------------------------
+//
+// Stale-digest defects share one shape: establish a success, perturb an input, run again
+// under some special circumstance, restore the input, run plainly. Every combination of the
+// parameters below is executed (exhaustive over the template space).
+
+func templateCases() []CacheCase {
+	var out []CacheCase
+	run := func(tasks []string, force bool, fail map[string]int) Step {
+		return Step{Op: "run", Tasks: tasks, Force: force, Fail: fail}
+	}
+	perturb := [][]Step{
+		{{Op: "write", File: "a.txt", Content: "1"}},
+		{{Op: "delete", File: "a.txt"}},
+		{{Op: "write", File: "b.txt", Content: "1"}},
+		{{Op: "write", File: "a.txt", Content: "1"}, {Op: "write", File: "b.txt", Content: "1"}},
+	}
+	middle := []Step{
+		run([]string{"A"}, false, nil), run([]string{"A"}, true, nil), run([]string{"A", "B"}, false, nil), run([]string{"B", "A"}, true, nil),
+		run([]string{"A", "B"}, false, map[string]int{"B": 0}), run([]string{"A", "B"}, false, map[string]int{"A": 0}),
+		run([]string{"A"}, true, map[string]int{"A": 0}), run([]string{"B"}, false, nil), {Op: "rmcache", Whole: true}, {Op: "rmcache"},
+	}
+	restore := [][]Step{
+		{{Op: "revert", File: "a.txt"}, {Op: "revert", File: "b.txt"}},
+		{{Op: "write", File: "a.txt", Content: "0"}, {Op: "write", File: "b.txt", Content: "0"}},
+		{},
+		{{Op: "write", File: "a.txt", Content: "2"}},
+	}
+	final := []Step{run([]string{"A"}, false, nil), run([]string{"A", "B"}, false, nil), run([]string{"B"}, false, nil)}
+	first := []Step{run([]string{"A", "B"}, false, nil), run([]string{"A"}, false, nil), run([]string{"A", "B"}, true, nil)}
+	for _, prog := range enumProgs {
+		for _, f := range first {
+			for _, p := range perturb {
+				for _, m := range middle {
+					for _, r := range restore {
+						for _, fin := range final {
+							steps := []Step{f}
+							steps = append(steps, p...)
+							steps = append(steps, m)
+							steps = append(steps, r...)
+							steps = append(steps, fin, fin)
+							out = append(out, CacheCase{Tasks: prog, Init: map[string]string{"a.txt": "0", "b.txt": "0"}, Steps: steps})
+						}
+					}
+				}
+			}
+		}
+	}
+	return out
+}
+
+// TestCacheTemplates runs the template space slice [VERIF_LO, VERIF_HI).
+func TestCacheTemplates(t *testing.T) {
+	s := ev.Open(t, id())
+	root := filepath.Join(workRoot(t), "proj")
+	cases := templateCases()
+	lo, hi := ev.RangeFromEnv()
+	seen := map[string]bool{}
+	for idx := lo; idx < hi && idx < uint64(len(cases)); idx++ {
+		c := cases[idx]
+		if !missingOK() {
+			skip := false
+			for _, st := range c.Steps {
+				skip = skip || st.Op == "delete"
+			}
+			if skip {
+				s.Class("excluded_missing_literal_crashes")
+				continue
+			}
+		}
+		s.Progress(idx, nil)
+		s.Eval()
+		s.Class("space_templates")
+		if idx%997 == 0 {
+			s.Sample(map[string]any{"spokfile": c.Source(), "steps": c.Steps})
+		}
+		if f := execCache(id(), s, root, c); f != nil {
+			if s.IsKnown(f.Sig) {
+				s.Known(f.Sig, c)
+				continue
+			}
+			if !seen[f.Sig] {
+				seen[f.Sig] = true
+				s.Violation("cache", f.Sig, f.Msg, f.Size, c)
+			}
+		}
+	}
+	if s.Failed() {
+		t.Fatal("violations recorded")
+	}
+}
+
 func sortedKeys(m map[string]string) []string {
 	out := make([]string, 0, len(m))
 	for k := range m {
